@@ -20,6 +20,7 @@ Rt(n)           == [Op0 EXCEPT !.op = "routes", !.inst = n]
 Ur(n, st, p, ps) == [Op0 EXCEPT !.op = "url", !.inst = n, !.strict = st, !.pat = p, !.params = ps]
 HAd(n, d)       == [Op0 EXCEPT !.op = "hadd", !.inst = n, !.domains = <<d>>]
 HDl(n, d)       == [Op0 EXCEPT !.op = "hdelete", !.inst = n, !.pat = d]
+GSv(n, m, path, host) == [Op0 EXCEPT !.op = "gserve", !.inst = n, !.method = m, !.path = path, !.host = host]
 HMt(n, host, wit, wps) == [Op0 EXCEPT !.op = "hmatch", !.inst = n, !.host = host, !.key = wit, !.hdr = wps]
 G == <<"GET">>  P == <<"POST">>
 
@@ -42,15 +43,19 @@ Roles == CASE Mode = "c06"      -> <<[k |-> "w", n |-> "r1"], [k |-> "w", n |-> 
            [] Mode = "c07inst"  -> <<[k |-> "own", n |-> "r1"], [k |-> "own", n |-> "r2"], [k |-> "hosts", n |-> "h1"]>>
            [] Mode = "c07quiet" -> <<[k |-> "r", n |-> "r1"], [k |-> "r", n |-> "r1"], [k |-> "r", n |-> "r1"], [k |-> "r", n |-> "r1"]>>
            [] Mode = "c07seq"   -> <<[k |-> "seq", n |-> ""]>>
+           [] Mode = "c07group" -> <<[k |-> "grp", n |-> "g1"], [k |-> "grp", n |-> "g1"], [k |-> "grp", n |-> "g1"], [k |-> "r", n |-> "r1"]>>
 QOps(n) == ROps(n) \cup {SvF(n, "GET", "/posts/author", "/posts/author", <<>>, [x \in {"h:route"} |-> "error"]),
                         SvF(n, "GET", "/nope/zz", "", <<>>, [x \in {"h:404"} |-> "string"])}
 OpsFor(role) == CASE role.k = "w" -> WOps(role.n)
                   [] role.k = "r" -> IF Mode = "c07quiet" THEN QOps(role.n) ELSE ROps(role.n)
                   [] role.k = "own" -> WOps(role.n) \cup ROps(role.n)
                   [] role.k = "hosts" -> HOpsC(role.n)
+                  [] role.k = "grp" -> {GSv(role.n, "GET", "/x", "a.com"), GSv(role.n, "GET", "/7q", "a.com"), GSv(role.n, "GET", "/v1/x", "zz.com"), GSv(role.n, "GET", "/v1/8w", "zz.com"),
+                                        GSv(role.n, "GET", "/nope", "zz.com"), GSv(role.n, "POST", "/y/z", "b.com")}
                   [] role.k = "seq" -> WOps("r1") \cup ROps("r1") \cup ROps("r2") \cup {New("r2"), Hd("r2", "/posts/author", P, "")} \cup {x \in WOps("r3") : x.op = "handle"}
 Prefix(role) == IF role.k = "own" THEN Setup(role.n) ELSE IF role.k = "hosts" THEN <<New(role.n)>> ELSE <<>>
 SetupOps == CASE Mode \in {"c06", "c07quiet"} -> Setup("r1")
+              [] Mode = "c07group" -> <<New("g1")>> \o Setup("r1")
               [] Mode = "c07seq" -> <<New("r1"), New("r3")>>
               [] OTHER -> <<>>
 
